@@ -2,10 +2,12 @@
 //! their blueprint), C51 (locked state stays locked).
 
 pub mod c05;
+pub mod c50;
+pub mod c51;
 pub mod env;
 pub mod pup;
 pub mod scan;
 
 pub fn checks() -> Vec<vf_core::Check> {
-    vec![c05::check()]
+    vec![c05::check(), c50::check(), c51::check()]
 }
